@@ -365,6 +365,9 @@ def fn(name: str, *args: Expr) -> Expr:
             return Num(_FOLD[name](args[0][1]))
         except Exception:
             pass
+    if name in ("int", "floor", "ceil", "round", "trunc") and len(args) == 1 and args[0][0] == "fn" \
+            and args[0][1] in ("int", "floor", "ceil", "round", "trunc"):
+        return args[0]   # an integer-valued expression is left as it is by a second rounding
     if name == "abs":
         a = args[0]
         if a[0] == "fn" and a[1] in ("abs", "sqrt", "exp"):
